@@ -379,6 +379,11 @@ func emitGame(c *Ctx, g *genGame) {
 		c.Count(f)
 	}
 	c.Emit("ptnrender " + fmtPTN(g.p))
+	if rt := c.Emit("ptnrt " + fmtPTN(g.p)); g.safe && rt != "same" {
+		c.Count("roundtrip.SAFE-" + rt) // a generated-safe game that does not survive: contradicts render_parse_tokens
+	} else {
+		c.Count("roundtrip." + rt)
+	}
 	text := []byte(g.p.Render())
 	if c.R.Chance(1, 3) {
 		text = append(append([]byte{}, bom...), text...)
